@@ -29,7 +29,7 @@ ENGINE = 'E2 bfs'
 LEVEL = 'model_checking'
 LEVEL_TEXT = (
     'Explicit-state breadth-first exploration of every statement history up to the stated depth '
-    'over an alphabet of up to 32 string statements (literal/concatenation/copy assignments in program '
+    'over an alphabet of up to 34 string statements (literal/concatenation/copy assignments in program '
     'and direct mode, MID$ and LSET/RSET statements, SWAP, array elements, ERASE/DIM, DEF FN calls, '
     'temporaries-only expressions, explicit collection, an over-long allocation), on real pcbasic '
     'Sessions whose memory is limited so that 12, 24, 40 or ~60000 bytes are free. States are merged '
@@ -121,12 +121,15 @@ OPS = [
     ('nested-concat', 'D', b'A$=(B$+"")+(C$(1)+B$)'),
     # MID$ with a temporary as the new value: a target held in program text is copied first (room is made by a collection)
     ('midset-temp', 'D', b'MID$(A$,2)=B$+"uv"'),
+    # built-in string functions whose first argument is a temporary while a later argument allocates
+    ('left-temp-arg', 'D', b'A$=LEFT$(B$+C$(1),LEN(B$+"pq"))'),
+    ('instr-temps', 'D', b'X=INSTR(B$+"u",C$(1)+"v")'),
 ]
 LABELS = [o[0] for o in OPS]
 QUICK_OPS = [LABELS.index(l) for l in (
     'lit5-code', 'lit9-code', 'append-code', 'midset', 'lset', 'copy', 'concat-elem', 'swap', 'swap-elem',
     'elem-concat', 'erase', 'temps-only', 'fn-param-live', 'too-long', 'copy-elem-gc', 'elem0-chr', 'copy-elem0-gc',
-    'rset', 'expr-error', 'fn-num-after-temp', 'fn-two-temps', 'nested-concat', 'midset-temp')]
+    'rset', 'expr-error', 'fn-num-after-temp', 'fn-two-temps', 'nested-concat', 'midset-temp', 'left-temp-arg')]
 
 # memory configurations: free bytes of the set-up session
 CONFIGS = {'f12': 12, 'f24': 24, 'f40': 40, 'big': None}
@@ -192,6 +195,14 @@ def ref_step(ref, label):
             return E_IFC, ref, 0
         n.a = (b'zz'[:len(a)] + a[2:])[:len(a)]
         need = len(a)
+    elif label == 'left-temp-arg':
+        c1 = elems()[1]
+        t = b + c1
+        n.a = t[:len(b) + 2]
+        need += len(t) + len(b) + 2 + 2 + len(n.a)
+    elif label == 'instr-temps':
+        c1 = elems()[1]
+        need += len(b) + 1 + 1 + len(c1) + 1 + 1
     elif label == 'midset-temp':
         need = len(b) + 2 + 2
         if len(a) < 2:
